@@ -220,6 +220,74 @@ func stepsVsChip(out *core.Outcome, prop string, r *ReadRun) {
 	}
 }
 
+// plainProtocolOracle: BAC and PACE run before a session exists, so their chip messages are not covered by the
+// secure-messaging oracle. A mechanism may be reported successful only if every chip message of that protocol
+// reached the terminal exactly as the chip sent it (any altered, lost, replayed or foreign message must make it fail).
+func plainProtocolOracle(out *core.Outcome, prop string, r *ReadRun) {
+	if r.Doc == nil {
+		return
+	}
+	altered := func(ins byte) (bool, int) {
+		for k, cmd := range r.Link.Cmds {
+			if len(cmd) < 2 || cmd[1] != ins || cmd[0]&0x0C != 0 {
+				continue
+			}
+			if k < len(r.Link.Delivered) && !sameMessage(r.Link.Delivered[k], r.Link.Genuine[k]) {
+				return true, k
+			}
+		}
+		return false, -1
+	}
+	s := r.Doc.Session
+	if s.BacResult != nil && s.BacResult.Success {
+		if a, k := altered(0x82); a {
+			out.Violate(prop, "success-despite-altered-chip-message", "BAC", "BAC reported successful although the chip's EXTERNAL AUTHENTICATE answer (exchange %d) did not reach the terminal unaltered", k)
+		}
+		if a, k := altered(0x84); a {
+			out.Violate(prop, "success-despite-altered-chip-message", "BAC/challenge", "BAC reported successful although the chip's challenge (exchange %d) did not reach the terminal unaltered", k)
+		}
+	}
+	if s.PaceResult != nil && s.PaceResult.Success {
+		if a, k := altered(0x86); a {
+			out.Violate(prop, "success-despite-altered-chip-message", "PACE", "PACE reported successful although a chip GENERAL AUTHENTICATE answer (exchange %d) did not reach the terminal unaltered", k)
+		}
+	}
+}
+
+// sameMessage: byte-identical, or differing only in BER length encoding / trailing duplicate objects, i.e. the
+// same status word and the same first data object (tag and content).
+func sameMessage(a, b []byte) bool {
+	if bytes.Equal(a, b) {
+		return true
+	}
+	if len(a) < 2 || len(b) < 2 || !bytes.Equal(a[len(a)-2:], b[len(b)-2:]) {
+		return false
+	}
+	return canon(a[:len(a)-2], true) != "" && canon(a[:len(a)-2], true) == canon(b[:len(b)-2], true)
+}
+
+func canon(b []byte, firstOnly bool) string {
+	ts, err := chip.ParseTLVs(b)
+	if err != nil || len(ts) == 0 {
+		return ""
+	}
+	out := ""
+	for i, t := range ts {
+		if firstOnly && i > 0 {
+			break
+		}
+		inner := ""
+		if t.Tag == 0x7C || t.Tag&0x20 != 0 && t.Tag < 0x100 {
+			inner = canon(t.Val, false)
+		}
+		if inner == "" {
+			inner = fmt.Sprintf("%x", t.Val)
+		}
+		out += fmt.Sprintf("[%x:%s]", t.Tag, inner)
+	}
+	return out
+}
+
 // smExchangeOracle: every exchange the library accepted while a session was installed (it appears in the
 // APDU log with a protected child entry) must be one the chip processed, and the plaintext response the
 // library delivered must be exactly the plaintext response the chip protected for that exchange.
@@ -243,10 +311,38 @@ func smExchangeOracle(out *core.Outcome, prop string, r *ReadRun) {
 		}
 		want := append(bytes.Clone(ex.PlainData), byte(ex.PlainSW>>8), byte(ex.PlainSW))
 		if !ex.RespSM || !bytes.Equal(e.Rx, want) {
+			// known weakness of the naked-response counter roll-back (C03 known finding "naked-then-stale"): the genuine,
+			// never delivered response of the immediately preceding rolled-back exchange is accepted for the retry.
+			// It does not touch what C11 states (no wrong file bytes, no false success), so it is counted here, not alarmed.
+			if staleAfterRollback(r, ex, e.Rx) {
+				out.Probe("stale_response_after_rollback_accepted")
+				continue
+			}
 			out.Violate(prop, "accepted-response-differs-from-chip", e.Desc, "exchange %d (%s): library delivered %x, the chip protected %x (protected=%v, sm error=%q)", ex.N, e.Desc, e.Rx, want, ex.RespSM, ex.SMError)
 			out.Violate("C03", "accepted-forged", "e2e/"+e.Desc, "exchange %d (%s): library delivered %x, the chip protected %x", ex.N, e.Desc, e.Rx, want)
 		}
 	}
+}
+
+// staleAfterRollback: rx is the plaintext the chip protected for an earlier exchange whose delivery to the terminal
+// was replaced by a bare status word (so the terminal rolled its counter back), with nothing accepted in between.
+func staleAfterRollback(r *ReadRun, ex *chip.Exchange, rx []byte) bool {
+	for j := ex.N - 1; j >= 0 && j >= ex.N-4; j-- {
+		prev := r.Chip.Log[j]
+		if !prev.RespSM {
+			continue
+		}
+		if !bytes.Equal(append(bytes.Clone(prev.PlainData), byte(prev.PlainSW>>8), byte(prev.PlainSW)), rx) {
+			continue
+		}
+		// find the link exchange that carried this chip exchange and check that a bare status was delivered instead
+		for k, cmd := range r.Link.Cmds {
+			if bytes.Equal(cmd, prev.CmdRaw) && k < len(r.Link.Delivered) && len(r.Link.Delivered[k]) <= 2 {
+				return true
+			}
+		}
+	}
+	return false
 }
 
 // ------------------------------------------------------------------ C08 engine
@@ -419,6 +515,7 @@ func (E2EEngine) Run(prop string, ci any) *core.Outcome {
 	checkFilesIdentical(out, "C08", r, nil)
 	stepsVsChip(out, "C08", r)
 	smExchangeOracle(out, "C08", r)
+	plainProtocolOracle(out, "C08", r)
 	trustInvariant(out, r.Doc, "e2e-live")
 	if r.Chip.Facts.PlainWhileSM > 0 {
 		out.Violate("C10", "plain-while-sm", "e2e", "the chip received %d unprotected command(s) while a session was installed", r.Chip.Facts.PlainWhileSM)
